@@ -43,7 +43,7 @@ LEVEL = "proof"
 ENGINES = ["lean-model", "purediff", "kopfsim"]
 TIE = ("D: real patching.patch_obj / application.apply against the stateful fake API, bounded-exhaustive grid "
        "(thorough) + random contents; S: every patch_obj call of whole-operator simulations replayed through the model")
-ASSURANCE = "partial"   # DESIGN §8 sense; `LEVEL` is the evidence schema's technique category and has no such value
+STRENGTH = "partial"    # DESIGN §8 sense (LEVEL stays the schema's technique category "proof")
 LEVEL_TEXT = (
     "PARTIAL in the sense of DESIGN §8: `only ever lands on the object it was computed for` is proved under a guard only "
     "(same_object_partial; the full clause is false, finding F2), `not duplicated` holds for the finalizer list under the documented "
@@ -1010,7 +1010,7 @@ def run(ctx: Ctx) -> None:
     cases += [gen_random(ctx.rng, ctx.seed * 1_000_000 + i) for i in range(nrand)]
     evaluate(ctx, cases)
     ctx.extra["grid_size"] = len(g)
-    ctx.extra["assurance"] = ASSURANCE
+    ctx.extra["strength"] = STRENGTH
     from . import sim_c08 as c08_closed
     c08_closed.run(ctx)
 
